@@ -28,6 +28,38 @@ def collect(timeout=900):
         shutil.rmtree(tmp, ignore_errors=True)
 
 
+TID0 = 5 * 10 ** 6
+
+
+def _table_ok(p):
+    """tabulated parameter inside the modelled class: |io| strictly increasing, |vi| distinct"""
+    from decwire import undec
+    if not isinstance(p, dict) or p.get("k") not in ("t1", "t2"):
+        return True
+    io = [abs(undec(x)) for x in p["io"]]
+    vi = [abs(undec(x)) for x in p["vi"]]
+    return all(a < b for a, b in zip(io, io[1:])) and len(set(vi)) == len(vi)
+
+
+def for_checks(timeout=900):
+    """the suite's traces / solve() cases with ids that cannot collide with generated ones; solve cases whose tables
+    are outside the modelled class are dropped (counted)"""
+    r = collect(timeout)
+    traces = []
+    for t in r["traces"]:
+        t = dict(t, tid=TID0 + int(t["tid"]), origin="repository test-suite under the recorder")
+        traces.append(t)
+    cases, dropped = [], 0
+    for c in r["solve_cases"]:
+        ok = all(_table_ok(p) for comp in c["st"]["comps"] for p in comp["pay"]["params"].values())
+        if not ok:
+            dropped += 1
+            continue
+        c = dict(c, id=TID0 + len(cases), origin="repository test-suite under the recorder")
+        cases.append(c)
+    return {"traces": traces, "solve_cases": cases, "pytest": r["pytest"], "dropped_unmodelled": dropped}
+
+
 def _child(testdir):
     sys.path.insert(0, HERE)
     import warnings
